@@ -2,6 +2,7 @@ import ErrModel.Proofs.RoundTrip
 import ErrModel.Proofs.TextEq
 import ErrModel.Proto
 import ErrModel.ProtoEnc
+import ErrModel.ProtoPay
 /-
   C01 — Error text and cause-tree structure survive network transfer.
 
@@ -149,5 +150,19 @@ theorem exW_small : Proto.SmallW exW := by
   simp [exW, Proto.SmallW, Proto.SmallWs, Proto.DetSmall, Proto.serW, Proto.serWs, Proto.serItems, Proto.Item.ser,
     Proto.leafItems, Proto.wrapItems, Proto.optLd, Proto.optVi, Proto.serDet, Proto.detFields, Proto.serMark,
     Proto.markFields, Proto.serLD, Proto.lenField, Proto.varint, lit]
+
+
+/-- the `Any` that carries a payload: type URL and value come back, for all byte strings -/
+theorem C01_wire_any (url val : List UInt8) (h1 : url.length < 2 ^ 64) (h2 : val.length < 2 ^ 64) :
+    Proto.desAny (Proto.serAny url val) = some (url, val) :=
+  Proto.desAny_serAny url val h1 h2
+
+/-- every payload message of the library is read back as it was written (strings, repeated
+    strings, the errno payload with its five flags, marks with any number of types, tags with any
+    number of pairs, HTTP and gRPC codes, the empty test payload) -/
+theorem C01_wire_payload_partial (p : Pay) (name : Str) (fields : List Proto.Item)
+    (hf : Proto.payFields p = some (name, fields)) (hs : Proto.PaySmall p) :
+    Proto.desPayNamed name (Proto.serItems fields) = some p :=
+  Proto.desPay_serPay p name fields hf hs
 
 end ErrModel
